@@ -19,6 +19,7 @@ import (
 	_ "veriftxn/unibk"
 
 	"github.com/pingcap/failpoint"
+	"github.com/tikv/client-go/v2/tikvrpc"
 	"github.com/tikv/client-go/v2/verifrt/ev"
 	"github.com/tikv/client-go/v2/verifrt/sched"
 	"github.com/tikv/client-go/v2/verifrt/txnh"
@@ -26,7 +27,24 @@ import (
 
 func op(kind, key string) txnh.Op { return txnh.Op{Kind: kind, Key: key} }
 
+var dumped = 0
+
 func monitor(s *txnh.TxnScenario, x *sched.Exec) []sched.Violation {
+	if os.Getenv("VERIF_DUMP") != "" && dumped < 2 {
+		has := false
+		for _, r := range s.W.Log() {
+			if r.Cmd == tikvrpc.CmdCheckSecondaryLocks {
+				has = true
+			}
+		}
+		if has {
+			dumped++
+			fmt.Fprintf(os.Stderr, "---- trace %v\n", x.Trace)
+			for _, r := range s.W.Log() {
+				fmt.Fprintf(os.Stderr, "  #%d c%d %s req=%v\n      resp=%v err=%v\n", r.Seq, r.Client, r.Label, r.Req.Req, r.Resp, r.Err)
+			}
+		}
+	}
 	return txnh.Monitor(s.H, s.W.Log(), s.W.TSOs(), s.W.Ticks()...)
 }
 
@@ -175,6 +193,60 @@ func main() {
 						add(name, sched.Bounds{P: 0, F: hbF, Horizon: 300, EarlyTimers: false, Tickers: true, TickerMatch: "keepAlive"}, mk)
 					}
 				}
+			}
+			// (5) a live async-commit transaction whose prewrite is slow. In this order, one deviation each: time
+			// passes between its locking call and Commit (+15 s), the keep-alive ticker fires (the heart-beat
+			// raises the primary's TTL, and only the primary's), time passes again while the prewrites are on
+			// their way (+6 s: the not yet prewritten key's pessimistic lock has now outlived its TTL, the
+			// primary has not). A writer (reads are not blocked by pessimistic locks) that meets the old lock
+			// must wait for the live primary instead of starting the async-commit recovery, which would roll the
+			// transaction back. One preemption lets the writer in.
+			if m.Pessimistic && m.Async {
+				bk, m := bk, m
+				lo := common.Layout{Name: "split@b,c", Splits: []string{"b", "c"}}
+				name := fmt.Sprintf("%s/%s/%s/P:lock(a,b,c);set(a);set(b);set(c)/slow-prewrite+writer", bk.Name, lo.Name, m)
+				vops := []txnh.Op{{Kind: "lock", Keys: []string{"a", "b", "c"}}, op("set", "a"), op("set", "b"), op("set", "c"), commit}
+				mk := func() *txnh.TxnScenario {
+					stage := 0
+					sc := &txnh.TxnScenario{ID: name, NewBackend: func() txnh.Backend { return bk.New(lo.Splits) }, Keys: keys,
+						Progs: [][]txnh.Program{{{Mode: m, Ops: vops}}, {{Ops: []txnh.Op{op("set", "c"), commit}}}}, CheckFn: monitor}
+					sc.SetupFn = func(s *txnh.TxnScenario) {
+						stage = 0
+						failpoint.Disable("tikvclient/twoPCRequestBatchSizeLimit")
+					}
+					sc.ExtraFn = func(s *txnh.TxnScenario) []sched.Choice {
+						v := s.H.Txns[0]
+						if v.Outcome != "open" {
+							return nil
+						}
+						switch {
+						case stage == 0 && !v.CommitCalled && len(v.Locks) > 0:
+							return []sched.Choice{{Key: "clock+15s", FCost: 1, Fn: func() { stage = 1; sched.Advance(15 * time.Second) }}}
+						case stage == 1:
+							return []sched.Choice{{Key: "tick:keepAlive", FCost: 1, Fn: func() {
+								if sched.FireTicker("keepAlive") {
+									stage = 2
+								}
+							}}}
+						case stage == 2 && v.CommitCalled:
+							hb, prewrites := 0, 0
+							for _, r := range s.W.Log() {
+								if r.Client == 0 && r.Cmd == tikvrpc.CmdPrewrite {
+									prewrites++
+								}
+								if r.Client == 0 && r.Cmd == tikvrpc.CmdTxnHeartBeat {
+									hb++
+								}
+							}
+							if prewrites > 0 && hb > 0 {
+								return []sched.Choice{{Key: "clock+6s", FCost: 1, Fn: func() { stage = 3; sched.Advance(6 * time.Second) }}}
+							}
+						}
+						return nil
+					}
+					return sc
+				}
+				add(name, sched.Bounds{P: 1, F: 3, Horizon: 400, EarlyTimers: false}, mk)
 			}
 			// (1) program pairs
 			type pr struct {
